@@ -42,6 +42,11 @@ PROFILES = {
                   wait_secs=[0, 1]),
 }
 
+PROFILES["timing"] = dict(types=dict(Pass=2, Task=5, Choice=1, Wait=6, Succeed=1, Fail=0, Parallel=0, Map=0),
+                          p_miss=0.0, p_err=0.2, p_retry=0.5, p_catch=0.5, top_error_member=False,
+                          nulls_as_documents=False, multi_retrier_hits=False, delays=[0.0, 0.5, 1.0, 2.5],
+                          p_timeout=0.4, wait_secs=[0, 1, 2, 3, 7], wait_timestamps=True)
+
 SIZES = {
     "quick": dict(depth=2, states=6, fan=3, items=4),
     "thorough": dict(depth=3, states=10, fan=5, items=8),
@@ -109,6 +114,21 @@ def all_paths(doc, prefix="$", out=None, depth=0):
     return out
 
 
+def rfc3339(t, offset_minutes=0, zulu_if_zero=False):
+    """Render the instant t (epoch seconds) in the given UTC offset notation (independent of the engine)."""
+    import datetime as _dt
+    tz = _dt.timezone(_dt.timedelta(minutes=offset_minutes))
+    d = _dt.datetime.fromtimestamp(t, tz)
+    s = d.strftime("%Y-%m-%dT%H:%M:%S")
+    if d.microsecond:
+        s += (".%06d" % d.microsecond).rstrip("0")
+    if offset_minutes == 0 and zulu_if_zero:
+        return s + "Z"
+    sign = "+" if offset_minutes >= 0 else "-"
+    m = abs(offset_minutes)
+    return "%s%s%02d:%02d" % (s, sign, m // 60, m % 60)
+
+
 class Gen(object):
     def __init__(self, rng, profile="general", tier="quick"):
         self.rng = rng
@@ -121,6 +141,7 @@ class Gen(object):
         self.in_maxconc_map = 0
         self.level = 0
         self.no_retry = 0
+        self.extra_input = {}
 
     # -- helpers --------------------------------------------------------------------
     def name(self, typ):
@@ -305,6 +326,17 @@ class Gen(object):
         if typ == "Wait":
             st = {"Type": "Wait"}
             r = rng.random()
+            if self.p.get("wait_timestamps") and r < 0.45:
+                # absolute instants a few seconds after the epoch of the run, in a random UTC offset notation
+                ts = rfc3339(self.p.get("epoch", 1700000000.0) + rng.choice([1, 2, 4, 6, 9, 15]) + rng.choice([0, 0, 0.25]),
+                             rng.choice([0, 0, 330, -210, 765, -1439, 60, -60, 1439]), rng.random() < 0.3)
+                if r < 0.2 or not isinstance(doc, dict):
+                    st["Timestamp"] = ts
+                else:
+                    key = "ts%d" % self.n
+                    self.extra_input[key] = ts
+                    st["TimestampPath"] = "$." + key
+                return st, doc, False, []
             if r < 0.6:
                 st["Seconds"] = rng.choice(self.p["wait_secs"])
             else:
@@ -566,6 +598,7 @@ def generate(rng, profile="general", tier="quick", with_timeout=0.1):
     # trim items to the tier's bound
     inp["items"] = inp["items"][: g.sz["items"]]
     d = g.machine(inp, g.sz["depth"])
+    inp.update(g.extra_input)
     if rng.random() < with_timeout:
         d["TimeoutSeconds"] = rng.choice([3, 5, 10, 30])
     return {"definition": d, "input": inp, "script": g.script, "functions": g.functions}
